@@ -583,7 +583,8 @@ def main(argv):
                                      "drift alone raises nothing, it doubles the random cases and runs three seeds"},
             "translated_from_source": {"functions": tr_status, "not_recognised": untranslated,
                                        "note": "Gallina decision terms regenerated from /repo by gen/translate.go on this run; the Props file proves "
-                                               "the model takes exactly these decisions (theorems *_gen_*_decisions)"},
+                                               "the model takes exactly these decisions (theorems *_gen_*); each obligation is exported in the Props file of the FIRST property of "
+                                               "the unit's list in gen/tr_specs*.go and re-checked by every run of that property; the other listed properties share the model"},
             "model_vs_impl_mismatches": len(r["mism"]) if r else None,
             "checker_failures": len(r["bad"]) if r else None,
             "known_findings_open": [f["id"] for f in open_f],
